@@ -18,7 +18,7 @@ RULE = ("sampler {importance, emcee, minipcn, smc, emcee_smc, blackjax_smc(rwmh)
         "logit+affine, probit} x namespace x seeds x {n_final_samples, resumed from every checkpoint}; plus every execution "
         "(<=1 environment deviation) of the explored SMC loop over schedule options. At every likelihood call the received "
         "object carries log_prior equal to the prior at exactly those coordinates; at the end Aspire.n_likelihood_evaluations "
-        "== sum of points over the calls of that run. one evaluation = one whole run; non-trivial = run with >= 3 likelihood calls")
+        "== sum of points over the calls of that run; every sampler also with a prior that varies over its support (a log-prior carried over from other points is then another number). one evaluation = one whole run; non-trivial = run with >= 3 likelihood calls")
 ASSUMPTIONS = [
     "stub kernels; for blackjax_smc the likelihood is called under JAX tracing, where only presence/pairing is observable; "
     "the number of points evaluated inside the compiled kernel is N x (n_steps+1) per mutation by construction of random-walk MH",
@@ -200,6 +200,12 @@ def configs(tier, seed):
                         continue
                     out.append(("run_one", {"sampler": sampler, "N": 8, "opts": dict(sched) if sampler in ("smc", "emcee_smc") else {},
                                             "cadence": 1, "n_final": nfinal, "precond": precond, "seed": sd, "ns": ns}))
+    # a prior that varies over its support (with a box prior, a log-prior carried over from other points goes unnoticed)
+    for sampler in ("minipcn", "emcee", "smc", "emcee_smc"):
+        for ns in (("numpy", "torch") if sampler != "emcee" else ("numpy",)):
+            for nfinal in ((None, 12) if sampler in ("smc", "emcee_smc") else (None,)):
+                out.append(("run_one", {"sampler": sampler, "N": 8, "opts": {"adaptive": True, "target_efficiency": 0.8} if sampler in ("smc", "emcee_smc") else {},
+                                        "cadence": 1, "n_final": nfinal, "precond": "sloped", "seed": 0, "ns": ns}))
     # the MCMC samplers' chain post-processing options (the final evaluation batch has another size)
     for precond in ("none", "tight") if tier == "quick" else ("none", "tight", "periodic", "logit_affine"):
         for mo in ({"burnin": 1, "thin": 2}, {"last_step_only": True}, {"thin": 3}):
